@@ -172,6 +172,8 @@ def mk_mut(spec, tag, run_mode=False):
         return Count("cnt%d" % tag) if run_mode else lena.core.FillInto(Count("cnt%d" % tag))
     if k == "id":
         return lambda v: v
+    if k == "stop":
+        return lena.flow.Slice(spec[1])
     raise AssertionError(spec)
 
 
@@ -213,16 +215,34 @@ def alone(spec, tag, blocks, driver):
     per_block, final = [], []
     if spec["kind"] == "fc":
         seq = FillComputeSeq(*els)
+        stopped = False
         for b in blocks:
-            for v in copy.deepcopy(b):
-                seq.fill(v)
-            per_block.append([])
-        final = [copy.deepcopy(r) for r in seq.compute()]
+            res = []
+            if not stopped:
+                for v in copy.deepcopy(b):
+                    try:
+                        seq.fill(v)
+                    except lena.core.LenaStopFill:
+                        # the branch is finalised where it stops
+                        stopped = True
+                        res = [copy.deepcopy(r) for r in seq.compute()]
+                        break
+            per_block.append(res)
+        if not stopped:
+            final = [copy.deepcopy(r) for r in seq.compute()]
     elif spec["kind"] == "fr":
         seq = FillRequestSeq(*els, bufsize=1, reset=False, buffer_input=True)
+        stopped = False
         for b in blocks:
+            if stopped:
+                per_block.append([])
+                continue
             for v in copy.deepcopy(b):
-                seq.fill(v)
+                try:
+                    seq.fill(v)
+                except lena.core.LenaStopFill:
+                    stopped = True
+                    break
             if driver == "run":
                 per_block.append([copy.deepcopy(r) for r in seq.request()])
             else:
@@ -282,6 +302,10 @@ def branch_case(draw):
         elif kind == "fr":
             term = "snapreq"
         muts = draw(st.lists(mut_strat, min_size=0, max_size=3))
+        if driver == "run" and kind in ("fc", "fr") and draw(st.integers(0, 2)) == 0:
+            # the branch stops taking values (LenaStopFill) after k of them
+            pos = draw(st.integers(0, len(muts)))
+            muts = muts[:pos] + [["stop", draw(st.integers(0, 6))]] + muts[pos:]
         branches.append({"kind": kind, "muts": muts, "term": term})
     flow = draw(st.lists(val_strat, max_size=8))
     n = len(flow)
@@ -365,12 +389,14 @@ def judge_branches(case):
         raise Violation("branch-result-differs-from-branch-alone:%s" % what.split(".")[0].lower() + ":" + driver,
                         "%s with branches %s, bufsize %r, flow %s:\n got %s\n exp %s" % (
                             what, specs, bufsize, short(case["flow"], 300), short(got, 900), short(exp, 900)))
-    nmut = sum(1 for s in specs if any(m[0] != "id" for m in s["muts"]))
+    nmut = sum(1 for s in specs if any(m[0] not in ("id", "stop") for m in s["muts"]))
+    stops = any(m[0] == "stop" and m[1] < n for s in specs[:-1] for m in s["muts"])
     with_ctx = sum(1 for v in case["flow"] if v.get("c") is not None)
     nt = nmut >= 2 and n >= 2 and with_ctx >= 1
     return {"nontrivial": nt,
             "classes": ["driver=" + driver, "mutating-branches=%d" % nmut, "flow>=2" if n >= 2 else "flow<2",
-                        "mutator-not-last-branch" if any(m[0] != "id" for s in specs[:-1] for m in s["muts"]) else "only-last-mutates"]}
+                        "mutator-not-last-branch" if any(m[0] != "id" for s in specs[:-1] for m in s["muts"]) else "only-last-mutates",
+                        "non-last-branch-stops-midflow" if stops else "no-midflow-stop"]}
 
 
 # --------------------------------------------------------------------------
@@ -400,6 +426,11 @@ ACCS = {
     "SIB": (lambda: SplitIntoBins(FillComputeSeq(Sum()), Variable("x", lambda d: d), [0, 5, 10]), "num"),
     "SIBhist": (lambda: SplitIntoBins(FillComputeSeq(Histogram([0, 5, 10])), Variable("x", lambda d: d, latex_name="X"), [0, 5, 10]), "num"),
     "SIBmean": (lambda: SplitIntoBins(Mean(pass_on_empty=False, sum_seq=Sum()), Variable("x", lambda d: d), [0, 20]), "num"),
+    "SIB(Split[Sum,Mean])": (lambda: SplitIntoBins(Split([Sum(), Mean()]), Variable("x", lambda d: d), [0, 5, 10]), "num"),
+    "SIB(multi)": (lambda: SplitIntoBins(FillComputeSeq(MultiAcc(3)), Variable("x", lambda d: d), [0, 4, 8, 12]), "num"),
+    "SIB2d(Sum)": (lambda: SplitIntoBins(Sum(), lena.variables.Combine(Variable("x", lambda d: d), Variable("y", lambda d: d + 1)), [[0, 5, 10], [0, 6, 12]]), "num"),
+    "MeanMulti": (lambda: Mean(sum_seq=MultiAcc(2)), "num"),
+    "Vect(Hist)": (lambda: Vectorize(Histogram([0, 5, 10]), dim=2), "pair"),
     "Graph": (lambda: lena.structures.Graph(), "point"),
     "FCSeq(Sum)": (lambda: FillComputeSeq(lambda v: v, Sum(), lambda r: r), "num"),
     "FCSeq(Var,Hist)": (lambda: FillComputeSeq(Variable("y", lambda d: d), Histogram([0, 5, 10])), "num"),
@@ -413,6 +444,25 @@ ACCS = {
     "FR(Count)reset": (lambda: FillRequest(Count(), reset=True, bufsize=1, buffer_input=True), "num"),
     "FRSeq(Mean)": (lambda: FillRequestSeq(FillRequest(Mean(), reset=False, bufsize=1, buffer_input=True), lambda r: r, bufsize=1, buffer_input=True, reset=False), "num"),
 }
+
+
+class MultiAcc(object):
+    """user accumulator yielding several (number, context) results"""
+
+    def __init__(self, nres):
+        self.nres, self.tot, self.ctx = nres, 0, {}
+
+    def fill(self, v):
+        d, c = lena.flow.get_data_context(v)
+        self.tot += d
+        self.ctx = c
+
+    def compute(self):
+        for i in range(self.nres):
+            yield (self.tot + i, copy.deepcopy(self.ctx))
+
+    def reset(self):
+        self.tot, self.ctx = 0, {}
 
 
 def mutate_deep(obj, tag, depth=0):
@@ -602,7 +652,7 @@ CHECKS = [
                "Split fill+compute, Split fill+request (requests at generated points), Zip fill+compute / fill+request; flows 0..8 of (list or scalar, nested context). "
                "Non-trivial = >=2 mutating branches, >=2 values, >=1 value with context."),
     Check("accumulators", judge_acc, strategy=lambda tier: acc_case(), quick=2500, thorough=60000,
-          rule="29 accumulator configurations (Count, Sum, DSum, Mean x3, VarianceMeanCount x3, Vectorize x3, Histogram 1-2 dim, SplitIntoBins x3, Graph, FillComputeSeq x3, "
+          rule="34 accumulator configurations (Count, Sum, DSum, Mean x3, VarianceMeanCount x3, Vectorize x3, Histogram 1-2 dim, SplitIntoBins x3, Graph, FillComputeSeq x3, "
                "Split x2, Zip x2, FillRequest x3, FillRequestSeq) x histories of 3-10 ops fill(v, nested context) | compute/request | mutate yielded contexts (all / last / first). "
                "Non-trivial = a filled context with a nested container, >=2 outputs, >=1 output after a mutation."),
     Check("accumulator_matrix", judge_acc, cases=acc_matrix, exhaustive=True,
